@@ -212,5 +212,18 @@ let run_op (op : string) (args : string list) : string =
     let s = schema_of_sexp (parse_sexp sch) in
     let j = json_of_sexp (parse_sexp js) in
     "scope=" ^ (if reenc_scope s then "1" else "0") ^ " wf=" ^ (if json_wf j then "1" else "0")
+  | "dynbound", [ sch; bs ] ->
+    (* the F9 classification of the schema; the size of the decoded value; whether it is within
+       dslope * (input length) + doffset (always, by C18_allocation_bounded, when nz=1) *)
+    let s = schema_of_sexp (parse_sexp sch) in
+    let l = bytes_of_hex bs in
+    let nz = dno_zero s in
+    (match dyn_de host_widen s l with
+     | DOk (j, _) ->
+       let sz = jsize j in
+       let bound = N.add (N.mul (dslope s) (n_of_int (List.length l))) (doffset s) in
+       let within = (match N.compare sz bound with Gt -> false | _ -> true) in
+       "nz=" ^ (if nz then "1" else "0") ^ " size=" ^ string_of_int (int_of_n sz) ^ (if nz && not within then " OVER" else "")
+     | _ -> "nz=" ^ (if nz then "1" else "0") ^ " size=-")
   | _ -> failwith ("unknown op " ^ op)
 
